@@ -354,11 +354,27 @@ class Result:
         self.reason = reason
 
 
+NNF_LIMIT = int(os.environ.get("TVC_NNF_LIMIT", "600"))
+
+
+def _dag_size(t, cap):
+    seen = set()
+    stack = [t]
+    while stack and len(seen) < cap:
+        x = stack.pop()
+        if x.get_id() in seen:
+            continue
+        seen.add(x.get_id())
+        stack.extend(x.children())
+    return len(seen)
+
+
 def _skolemize_neg(goal):
     """not(goal) in negation normal form with its existentials Skolemized (z3 'nnf' tactic), so that the
     Skolem constants are visible as instantiation candidates for the reduction lemmas."""
-    if not _has_quantifiers([goal]):
-        # nothing to Skolemize; NNF of a large if-then-else nest only blows the goal up (and hides its syntactic match with hypotheses)
+    qf = not _has_quantifiers([goal])
+    if qf and _dag_size(goal, NNF_LIMIT + 1) > NNF_LIMIT:
+        # nothing to Skolemize, and the NNF of a large if-then-else nest only blows the goal up: keep it as it is
         return [z3.Not(goal)]
     try:
         g = z3.Goal()
@@ -367,6 +383,9 @@ def _skolemize_neg(goal):
         out = []
         for sub in res:
             out.extend(list(sub))
+        if qf and out:
+            # the untouched negation as well (equivalent; keeps the syntactic match of the goal with a hypothesis)
+            out.append(z3.Not(goal))
         return out
     except Exception:
         return [z3.Not(goal)]
@@ -388,7 +407,7 @@ def build_query(ctx: Ctx, ob, extra_axioms=()):
     ax.extend(sum_ext_axioms(reds, getattr(ctx, '_last_ground_apps', None)))
     allf = base + ax
     if uses_decl(allf, ops.NORM2):
-        ax.extend(ops.norm2_axioms(allf, exact=getattr(ctx, 'exact_norm', False)))
+        ax.extend(ops.norm2_axioms(allf, exact=getattr(ctx, 'exact_norm', False), goal=neg))
     return fs + list(extra_axioms) + ax, goal
 
 
